@@ -360,7 +360,14 @@ func (m *model) apply(op Op) string {
 
 const probe = `probe()`
 
-const probeFunc = `function probe(   i) {
+// The first thing a probe touches rotates (NF, bare length, length(), a bare regex match): an implementation
+// that rebuilds $0 lazily must do so for every reader.
+const probeFunc = `function probe(   i, k, l_) {
+  k = pk_++ % 4
+  if (k == 1) l_ = length
+  else if (k == 2) l_ = length()
+  else if (k == 3) l_ = (/^/) ? length : -1
+  if (k > 0 && l_ != length($0)) printf "BARE-LENGTH-DIFFERS-FROM-LENGTH-OF-RECORD %d ", l_
   printf "%s %d:%s", NF, length($0), $0
   for (i = 1; i <= NF; i++) printf " %d:%s", length($i), $i
   printf " +%d:%s -%d:%s\n", length($(NF+1)), $(NF+1), length($-1), $-1
